@@ -17,6 +17,11 @@ SPEC = os.path.join(os.path.dirname(os.path.dirname(os.path.abspath(__file__))),
 MOD = "dukebox::merge"
 SIDE_ADT = MOD + "::Side"
 
+# the merge decides "class or resource" by the entry kind the storage layer reports: for zip-backed jars that is ZipFile::to_jar_entry_enum
+# (a class exactly when the name ends in `.class`), decided by C07 R07.2 - a class reported as a resource is copied through without its
+# side mark and without member merging (seed C13-13)
+PREMISES = [("C07", ["R07.2:zip-entry-kind", "R07.2:zip-entry"])]
+
 CLAIM = {
  "text": "Necessary conditions of the client/server merge, decided on the typed HIR of dukebox/src/merge.rs: "
          "(R13.1) in merge_preserve_order every membership predicate `!S.contains(x)` tests the list x was NOT drawn from, "
